@@ -12,7 +12,8 @@ route (round g): absent = through Graph / ConjunctiveGraph objects as before; "s
 ConjunctiveGraph.contexts() (= AuditableStore.contexts()) hands out for that name, when there is one; "self" = a quad of the
 default graph given as `(s, p, o, cg)` with cg the ConjunctiveGraph itself (the wrapper then receives a ConjunctiveGraph as context);
 "ctxof" / "quadctx" / "tripctx" = through the Graph object of that name that `cg.contexts(<a triple the graph holds>)`, `cg.quads()` or the
-wrapper's own `triples()` hands out, when there is one (every graph object obtained through the wrapper must log through the wrapper).
+wrapper's own `triples()` hands out, when there is one (every graph object obtained through the wrapper must log through the wrapper);
+"resource" (round h) = through `graph.resource(s).add(p, o)` / `.remove(p, o)` (rdflib.resource.Resource holds the graph it was asked of).
 cfg "nest" (round g): ConjunctiveGraph over AuditableStore(AuditableStore(Memory)); wrapper 0 = outer (all operations),
 wrapper 1 = inner (commit / rollback behind the outer wrapper's back).
 Terms are small integers (vocabulary below, falsy literals included); graph names 90…93 (93 = the name rdflib gives a graph requested as <>).
@@ -21,14 +22,34 @@ abstract model of rounds 1-f); after every read: what the wrapper answered.
 Property oracle (independent of Lean): snapshot at transaction begin / at commit; reads through the wrapper = the underlying
 store's content; pass-through calls and binds change no quad; bindings are those a plain dict pair would hold.
 """
+import os
+import sys
 import warnings
 
 import core  # noqa: F401
 from rdflib import BNode, ConjunctiveGraph, Dataset, Graph, Literal, URIRef
+from rdflib.collection import Collection
 from rdflib.plugins.stores.auditable import AuditableStore
 from rdflib.plugins.stores.memory import Memory, SimpleMemory
 
 warnings.filterwarnings("ignore", category=DeprecationWarning)
+
+# Round h: every Graph object rdflib creates while an operation runs is recorded (who created it, on which store).
+# Recording only - the constructor runs unchanged.
+_TRACE = None
+_graph_init = Graph.__init__
+
+
+def _traced_init(self, *a, **k):
+    _graph_init(self, *a, **k)
+    if _TRACE is not None:
+        f = sys._getframe(1)
+        while f is not None and f.f_code.co_name == "__init__" and f.f_code.co_filename.endswith("graph.py"):
+            f = f.f_back        # ConjunctiveGraph / Dataset / QuotedGraph constructors
+        _TRACE.append((self, os.path.basename(f.f_code.co_filename) if f else "?", f.f_code.co_name if f else "?"))
+
+
+Graph.__init__ = _traced_init
 
 ID = "C18"
 LEAN_TARGETS = ["RV.C18.Props", "RV.C18.Audit"]
@@ -86,7 +107,7 @@ def gen_case(rng, tier, i):
     def route():
         if cfg == "sgraph":
             return []
-        r_ = rng.choice([None, None, "store", "ident", "ctxobj", "self", "ctxof", "quadctx", "tripctx"] if cfg in ("cg", "nest") else [None, None, "store"])
+        r_ = rng.choice([None, None, "store", "ident", "ctxobj", "self", "ctxof", "quadctx", "tripctx", "resource"] if cfg in ("cg", "nest") else [None, None, "store", "resource"])
         return [r_] if r_ else []
 
     def known(kinds):
@@ -278,6 +299,8 @@ def _fmt_bind(ns, pf):
 
 
 def run_impl(case):
+    global _TRACE
+    created = {}
     cfg = case["cfg"]
     gn = _ids(cfg)
     gn_rev = {v: k for k, v in gn.items()}
@@ -395,19 +418,41 @@ def run_impl(case):
                     viol.append(f"read: op {k} contexts({(s, p, o)}) through the wrapper answered {cs}, the store holds it in {want}")
                 obs.append(",".join(map(str, cs)))
             elif kind == "bound":
-                # every Graph object obtained through the wrapper must write through the wrapper
-                a = [g_ for g_ in st.contexts() if isinstance(g_, Graph)]
-                b = [g_ for _t, cg_ in st.triples((None, None, None), None) for g_ in cg_ if isinstance(g_, Graph)]
-                via_top = []
-                if cfg == "cg" and not (nest and w == 1):
-                    via_top = [g_ for _s, _p, _o, g_ in top.quads((None, None, None))] + list(top.contexts())
-                    for q_ in B[:3]:
-                        via_top += list(top.contexts((TERM[q_[0]], TERM[q_[1]], TERM[q_[2]])))
-                loose = [g_ for g_ in a + b + via_top if g_.store is not st]
-                if loose:
-                    viol.append(f"bound: op {k}: a Graph object handed out through the wrapper (contexts / triples / quads) is bound to "
-                                f"another store ({type(loose[0].store).__name__}): writes through it would bypass the undo log")
-                obs.append(f"{int(all(g_.store is st for g_ in a))} {int(all(g_.store is st for g_ in b))}")
+                # every Graph object obtained through the wrapper must write through the wrapper; one bit per Source of
+                # XModel.lean: storeContexts storeTriples cgContexts cgContextsOf cgQuads getContext resource collection nsManager
+                src = {n_: [] for n_ in ("storeContexts", "storeTriples", "cgContexts", "cgContextsOf", "cgQuads", "getContext",
+                                         "resource", "collection", "nsManager")}
+                src["storeContexts"] = [g_ for g_ in st.contexts() if isinstance(g_, Graph)]
+                src["storeTriples"] = [g_ for _t, cg_ in st.triples((None, None, None), None) for g_ in cg_ if isinstance(g_, Graph)]
+                if not (nest and w == 1):
+                    names = sorted({q_[3] for q_ in B}) or [DEFAULT_G]
+                    if cfg == "cg":
+                        src["cgContexts"] = list(top.contexts())
+                        for q_ in B[:3]:
+                            src["cgContextsOf"] += list(top.contexts((TERM[q_[0]], TERM[q_[1]], TERM[q_[2]])))
+                        src["cgQuads"] = [g_ for _s, _p, _o, g_ in top.quads((None, None, None))]
+                        src["getContext"] = [top, top.default_context] + [top.get_context(gn[c_]) for c_ in names]
+                        for c_ in names:
+                            try:
+                                src["getContext"].append(top.get_graph(gn[c_]))
+                            except IndexError:
+                                pass
+                        views = [top] + [top.get_context(gn[c_]) for c_ in names]
+                    else:
+                        src["getContext"] = [top]
+                        views = [top]
+                    for v_ in views:
+                        src["resource"].append(v_.resource(TERM[1]).graph)
+                        src["collection"].append(Collection(v_, BNode()).graph)
+                        src["nsManager"].append(v_.namespace_manager.graph)
+                bits = []
+                for n_, gs_ in src.items():
+                    loose = [g_ for g_ in gs_ if g_.store is not st]
+                    bits.append(str(int(not loose)))
+                    if loose:
+                        viol.append(f"bound: op {k}: a Graph object handed out by {n_} is bound to another store "
+                                    f"({type(loose[0].store).__name__}), not to the wrapper: writes through it bypass the undo log")
+                obs.append(" ".join(bits))
             else:
                 ns, pf, listed = _bindings(st)
                 if sorted(ns) != listed:
@@ -418,6 +463,7 @@ def run_impl(case):
                 viol.append(f"read: op {k} ({kind}) changed the store")
             continue
         route = op[6] if kind in ("add", "remove") and len(op) > 6 else None
+        _TRACE = []
         if kind == "bind":
             taken = st.namespace(PFX[op[2]]) is not None or st.prefix(NSP[op[3]]) is not None
             st.bind(PFX[op[2]], NSP[op[3]], override=bool(op[4]))
@@ -445,6 +491,8 @@ def run_impl(case):
             s, p, o, c = op[2:6]
             if route == "store":
                 st.add((t(s), t(p), t(o)), ctx_of(st, c))
+            elif route == "resource":
+                (top if cfg == "graph" else top.get_context(gn[c])).resource(t(s)).add(t(p), t(o))
             elif cfg == "graph":
                 top.add((t(s), t(p), t(o)))
             elif route == "ident":
@@ -524,6 +572,8 @@ def run_impl(case):
             s, p, o, c = op[2:6]
             if route == "store":
                 st.remove((t(s), t(p), t(o)), ctx_of(st, c))
+            elif route == "resource" and s is not None and p is not None and c is not None:
+                (top if cfg == "graph" else top.get_context(gn[c])).resource(t(s)).remove(t(p), t(o))
             elif cfg == "graph":
                 top.remove((t(s), t(p), t(o)))
             elif c is None:
@@ -545,6 +595,14 @@ def run_impl(case):
             (st if (nest and w == 1) else top).commit()
         elif kind == "rollback":
             (st if (nest and w == 1) else top).rollback()
+        made, _TRACE = _TRACE, None
+        # graphs created while the operation ran: one bound BELOW the wrapper the caller talks to, created anywhere but inside
+        # AuditableStore itself (its own re-bound views are never handed out: `bound` reads), is a way round the undo log
+        below = [mem] + ([sts[1]] if nest and w == 0 else [])
+        for g_, file_, fn_ in made:
+            created["graphs_created_by_" + file_.replace(".py", "") + "." + fn_] = created.get("graphs_created_by_" + file_.replace(".py", "") + "." + fn_, 0) + 1
+            if any(g_.store is b_ for b_ in below) and file_ != "auditable.py":
+                viol.append(f"leak: op {k} ({kind}): {file_}:{fn_} created a {type(g_).__name__} bound to the store UNDER the wrapper")
         after, raw_n = _quads(mem, gn_rev, term_rev)
         if raw_n != len(after):
             viol.append(f"dup: store yields duplicate quads after op {k}")
@@ -604,7 +662,7 @@ def run_impl(case):
     kinds = [o[0] for o in case["ops"]]
     return {"obs": obs, "viol": viol, "nontrivial": nontrivial,
             "key": repr((case["cfg"], case["two"], case["init"], case["ops"])),
-            "stats": {"ops": len(case["ops"]), "cfg_" + case["cfg"]: 1, "two_wrappers": int(case["two"]),
+            "stats": {**created, "ops": len(case["ops"]), "cfg_" + case["cfg"]: 1, "two_wrappers": int(case["two"]),
                       **{"op_" + o[0]: 1 for o in case["ops"]},
                       **{"route_" + o[6]: 1 for o in case["ops"] if o[0] in ("add", "remove") and len(o) > 6},
                       **{"pass_" + o[2]: 1 for o in case["ops"] if o[0] == "pass"},
@@ -628,8 +686,10 @@ def _op_lines(op):
     k, w = op[0], op[1]
     if k in ("add", "remove"):
         return [f"{k} {w} " + " ".join(_w(x) for x in op[2:6])]
-    if k in ("addn", "parse"):
+    if k == "addn":
         return [f"addn {w} " + " ".join(" ".join(_w(x) for x in q) for q in op[2])]
+    if k == "parse":
+        return [f"parse {w} " + " ".join(" ".join(_w(x) for x in q) for q in op[2])]
     if k == "addf":
         return [f"addf {w} " + " ".join(_w(x) for x in op[2]) + "".join(" " + " ".join(_w(x) for x in e) for e in op[3])]
     if k == "set":
@@ -641,12 +701,12 @@ def _op_lines(op):
     if k == "upd":
         sub = op[2]
         if sub == "insert":
-            return [f"addn {w} " + " ".join(" ".join(_w(x) for x in q) for q in op[3])]
+            return [f"upd-insert {w} " + " ".join(" ".join(_w(x) for x in q) for q in op[3])]
         if sub == "delete":
-            return [f"isub {w} " + " ".join(" ".join(_w(x) for x in q) for q in op[3])]
+            return [f"upd-delete {w} " + " ".join(" ".join(_w(x) for x in q) for q in op[3])]
         if sub == "clear":
-            return [f"rmctx {w} {op[3]}"]
-        return [f"remove {w} " + " ".join(_w(x) for x in op[3:7])]
+            return [f"upd-clear {w} {op[3]}"]
+        return [f"upd-delwhere {w} " + " ".join(_w(x) for x in op[3:7])]
     if k == "bind":
         return [f"bind {w} {op[2]} {op[3]} {op[4]}"]
     if k == "pass":
